@@ -328,6 +328,19 @@ func c14Shrink(c c14Case) c14Case {
 				}
 			}
 		}
+		// canonical probe: a piece of a unit that is wrongly read as code is replaced by a ?
+		for i := 0; i < len(c.Toks) && !changed; i++ {
+			for j := 0; j < len(c.Toks[i].Body) && !changed; j++ {
+				if c.Toks[i].Body[j] == "q" || !c14PieceOK(c.Toks[i].Kind, "q") {
+					continue
+				}
+				d := c14Clone(c)
+				d.Toks[i].Body[j] = "q"
+				if c14Fails(d) {
+					c, changed = d, true
+				}
+			}
+		}
 		// default opener / terminator of a comment
 		for i := 0; i < len(c.Toks) && !changed; i++ {
 			if c.Toks[i].Open != "" {
